@@ -142,7 +142,7 @@ class LogicalClock:
 class World:
     """one engine + file DB + observer; executes op tokens"""
 
-    def __init__(self, reset="rollback", tag="w"):
+    def __init__(self, reset="rollback", tag="w", poolclass="QueuePool"):
         import sqlalchemy as sa
         from sqlalchemy import pool as sapool
         import sqlalchemy.pool.base as pbase
@@ -176,13 +176,14 @@ class World:
             return p
 
         ror = {"rollback": "rollback", "commit": "commit", "none": None}[reset]
+        self.poolclass = poolclass
+        kw = {"pool_size": 5, "max_overflow": 5} if poolclass == "QueuePool" else {}
         self.engine = sa.create_engine(
             "sqlite://",
             creator=creator,
-            poolclass=sapool.QueuePool,
-            pool_size=5,
-            max_overflow=5,
+            poolclass=getattr(sapool, poolclass),
             pool_reset_on_return=ror,
+            **kw,
         )
         md = sa.MetaData()
         self.table = sa.Table("t", md, sa.Column("id", sa.Integer, primary_key=True))
@@ -293,6 +294,7 @@ class World:
             elif tok == "N":
                 self.conn = None
                 self.handles = []
+                c = None
                 gc.collect()
                 self.connect()
             elif tok == "G":
@@ -357,8 +359,11 @@ class World:
         fl = lambda l: ",".join(str(x) for x in l) if l else "-"  # noqa: E731
         b = lambda v: "1" if v else "0"  # noqa: E731
         c = self.conn
-        q = self.engine.pool._pool.queue
-        idle = ",".join("N" if r.dbapi_connection is None else str(r.dbapi_connection.rid) for r in q) or "-"
+        if self.poolclass == "QueuePool":
+            q = self.engine.pool._pool.queue
+            idle = ",".join("N" if r.dbapi_connection is None else str(r.dbapi_connection.rid) for r in q) or "-"
+        else:
+            idle = "?"
         head = res + (":" + fl(sel) if sel is not None else "")
         if self.gone or c is None:
             return "/".join([head, "0010", "N", "N", "N", "-", fl(self.committed()), "x", "x", idle, str(self.warns)])
@@ -394,9 +399,9 @@ class World:
         return self.record(res, sel)
 
 
-def run_ops(ops, reset="rollback", tag="w"):
+def run_ops(ops, reset="rollback", tag="w", poolclass="QueuePool"):
     """-> list of observation records (strings), one per op"""
-    w = World(reset, tag)
+    w = World(reset, tag, poolclass)
     try:
         return [w.step(t) for t in ops]
     finally:
